@@ -63,6 +63,10 @@ pub struct Case {
     pub params: Option<Vec<u64>>,
     pub faults: Vec<Mutation>,
     pub hash_seed: u64,
+    /// handed over as built in memory by a Rust caller instead of through encode -> decode (prost does not write
+    /// a -0.0 of an implicit-presence field, so signed zeros only arrive this way or from other encoders)
+    #[serde(default)]
+    pub direct: bool,
 }
 
 fn func_at<'a>(inst: &'a mut InstSpec, p: Place) -> Option<&'a mut Option<FuncSpec>> {
@@ -503,6 +507,14 @@ fn base_case(rng: &mut Rng) -> (InstSpec, Option<Vec<u64>>) {
             v.bound = Some((F(l), F(u)));
         }
     }
+    // corners of "valid bound": signed zeros at either end (0.0 <= -0.0 holds), a one-point subnormal interval,
+    // ends at the edge of the finite range
+    for v in &mut inst.vars {
+        if v.kind != 1 && rng.chance(1, 5) {
+            let (l, u) = *rng.pick(&[(0.0, -0.0), (-0.0, 0.0), (-0.0, -0.0), (5e-324, 5e-324), (-5e-324, 0.0), (f64::NEG_INFINITY, -f64::MAX), (f64::MAX, f64::INFINITY), (-1.0, -0.0), (0.0, 1e30)]);
+            v.bound = Some((F(l), F(u)));
+        }
+    }
     fix(&mut inst.objective);
     for c in &mut inst.constraints {
         fix(&mut c.function);
@@ -557,11 +569,20 @@ impl Prop for C08 {
         let (inst, params) = base_case(rng);
         let ms = mutations(&inst, &params);
         let mut faults = vec![];
+        // a fifth of the sampled cases stay well-formed (with the rarer bound corners and either delivery), a fifth
+        // carry one fault, the rest a pair
+        let n_faults = match rng.below(5) {
+            0 => 0,
+            1 => 1,
+            _ => 2,
+        };
         if !ms.is_empty() {
-            faults.push(rng.pick(&ms).clone());
-            faults.push(rng.pick(&ms).clone());
+            for _ in 0..n_faults {
+                faults.push(rng.pick(&ms).clone());
+            }
         }
-        Case { inst, params, faults, hash_seed: rng.next() }
+        let hash_seed = rng.next();
+        Case { inst, params, faults, hash_seed, direct: rng.chance(1, 3) }
     }
     fn enum_plan(&self, tier: Tier, seed: u64) -> Vec<(u64, u64)> {
         // per message: the well-formed original, then every single fault at every position
@@ -581,7 +602,7 @@ impl Prop for C08 {
         let (inst, params) = base_case(&mut Rng::new(gs));
         let ms = mutations(&inst, &params);
         let faults = if k == 0 { vec![] } else { vec![ms[(k - 1) as usize].clone()] };
-        Case { inst, params, faults, hash_seed: gs ^ k }
+        Case { inst, params, faults, hash_seed: gs ^ k, direct: false }
     }
     fn sim_params(&self, c: &Case) -> SimParams {
         SimParams { hash_seed: c.hash_seed, ..Default::default() }
@@ -611,7 +632,7 @@ impl Prop for C08 {
             // ParametricInstance::validate, delivered over the wire
             let bytes = parametric_v1(&inst, ps).encode_to_vec();
             x.api("deliver", &format!("{} bytes {:016x}", bytes.len(), { let mut h = crate::rng::Fnv::new(); h.bytes(&bytes); h.0 }));
-            let msg = v1::ParametricInstance::decode(&bytes[..]).expect("decode what was just encoded");
+            let msg = if case.direct { parametric_v1(&inst, ps) } else { v1::ParametricInstance::decode(&bytes[..]).expect("decode what was just encoded") };
             match x.sut(|| msg.validate()) {
                 Err(p) => x.violate("C08:panic", format!("ParametricInstance::validate panicked ({}): {p}", describe())),
                 Ok(r) => {
@@ -628,7 +649,12 @@ impl Prop for C08 {
 
         let bytes = inst.to_v1().encode_to_vec();
         x.api("deliver", &format!("{} bytes {:016x}", bytes.len(), { let mut h = crate::rng::Fnv::new(); h.bytes(&bytes); h.0 }));
-        let msg = v1::Instance::decode(&bytes[..]).expect("decode what was just encoded");
+        let msg = if case.direct {
+            x.count("probe.delivered_in_memory");
+            inst.to_v1()
+        } else {
+            v1::Instance::decode(&bytes[..]).expect("decode what was just encoded")
+        };
         match x.sut(|| msg.validate()) {
             Err(p) => x.violate("C08:panic", format!("validate panicked ({}): {p}", describe())),
             Ok(r) => {
@@ -791,7 +817,7 @@ impl Prop for C08 {
     }
 
     fn rule(&self) -> String {
-        "enumerated part: for each of N seeded valid messages (instances with hints, dependencies, removed constraints; a quarter delivered as parametric instances) the well-formed original and EVERY single-fault mutation at EVERY position: duplicate each variable ID; duplicate each constraint ID (active-active, active-removed, removed-removed, both directions); an undefined variable at each ID position of the objective, each constraint and each removed constraint; unset sense / objective / function / oneof / kind / equality / removed.constraint; each invalid bound shape (NaN lower, NaN upper, +inf lower, -inf upper, lower>upper) on each variable; undefined or repeated IDs in every hint slot; undefined dependency key; parameter ID colliding with a variable ID or duplicated. Sampled part: pairs of such faults. Each case is encoded, decoded and handed to validate() and try_from(); oracle = reference well-formedness model (sim/src/props/c08.rs: judge). distinct = distinct event-log hash (API results); non-trivial = at least one fault".into()
+        "enumerated part: for each of N seeded valid messages (instances with hints, dependencies, removed constraints; a quarter delivered as parametric instances) the well-formed original and EVERY single-fault mutation at EVERY position: duplicate each variable ID; duplicate each constraint ID (active-active, active-removed, removed-removed, both directions); an undefined variable at each ID position of the objective, each constraint and each removed constraint; unset sense / objective / function / oneof / kind / equality / removed.constraint; each invalid bound shape (NaN lower, NaN upper, +inf lower, -inf upper, lower>upper) on each variable; undefined or repeated IDs in every hint slot; undefined dependency key; parameter ID colliding with a variable ID or duplicated. Sampled part: pairs of such faults, single faults and well-formed messages with rarer valid bound shapes (signed zeros at either end, one-point subnormal intervals, ends at +-f64::MAX). Each case is handed to validate() and try_from() after encode -> decode or (a third of the sampled cases) as built in memory, which keeps signed zeros; oracle = reference well-formedness model (sim/src/props/c08.rs: judge). distinct = distinct event-log hash (API results); non-trivial = at least one fault".into()
     }
     fn assumptions(&self) -> Vec<String> {
         vec![
